@@ -15,6 +15,7 @@ PURE_NAMES = {
     "output_size", "input_size", "max_state_size", "bit_size", "max_size", "poly_count", "limbs", "clone", "deref", "as_ref", "borrow",
     "saturating_sub", "next_power_of_two", "ilog2", "log_n", "ring_degree", "is_multiple_of", "data", "to_ref", "glwe_layout", "ggsw_layout",
     "block_size", "abs", "unsigned_abs", "is_empty", "bytes_of", "bytes_of_from_infos", "wrapping_sub", "wrapping_add", "pow", "shl", "shr",
+    "to_mut", "deref_mut", "as_mut", "borrow_mut",
 }
 
 
@@ -227,7 +228,7 @@ class Sym:
             return a + b if name == "add" else (a - b if name == "sub" else a * b)
         if name in PURE_NAMES or name.endswith("_tmp_bytes") or name.startswith("bytes_of"):
             args = tuple(self.operand(a, (), depth + 1).key() for a in t["a"])
-            if name in ("into", "from", "as_usize", "clone", "deref", "as_ref", "borrow", "as_u32", "to_ref") and len(args) == 1:
+            if name in ("into", "from", "as_usize", "clone", "deref", "as_ref", "borrow", "as_u32", "to_ref", "to_mut", "deref_mut", "as_mut", "borrow_mut") and len(args) == 1:
                 # conversions are transparent
                 return self.operand(t["a"][0], path, depth + 1)
             a = ("f", name, args)
